@@ -329,7 +329,76 @@ def run_many_tables(ctx, n):
     ctx.run_hypothesis(strat, check, n)
 
 
+# ---- chunks written through the dataset I/O layer ----------------------------
+@st.composite
+def dataset_cases(draw):
+    b = st.sampled_from([1, 2, 3, 4, 8])
+    n = draw(st.integers(1, 3))
+    return {"dtype": draw(st.sampled_from(["uint32", "uint64"])),
+            "channels": draw(st.integers(1, 2)),
+            "scales": [{"size": [draw(st.integers(1, 9)) for _ in range(3)],
+                        "chunk": [draw(st.integers(1, 6)) for _ in range(3)],
+                        "block": [draw(b), draw(b), draw(b)]}
+                       for _ in range(n)],
+            "pal": ["2", "3-4", "5-16"], "values": draw(st.sampled_from(
+                ["small", "ge2^32", "max"])), "share": True,
+            "flat": draw(st.booleans()), "seed": draw(st.integers(0, 10 ** 6))}
+
+
+def check_dataset(ctx, case):
+    """Every compressed_segmentation chunk file of a multi-scale dataset,
+    written through PrecomputedIO, decodes from the format description with
+    the block size that the info announces for its scale."""
+    import os
+    d = ctx.tmpdir("csegds")
+    try:
+        scales = [ds.make_scale("s%d" % i, sc["size"], sc["chunk"],
+                                "compressed_segmentation", block=sc["block"])
+                  for i, sc in enumerate(case["scales"])]
+        info = ds.make_info(case["dtype"], case["channels"], scales,
+                            "segmentation")
+        pio = ds.new_dataset(info, {"type": "file", "flat": case["flat"],
+                                    "gzip": True, "compresslevel": 1},
+                             os.path.join(d, "ds"))
+        for i, (sc, p) in enumerate(zip(scales, case["scales"])):
+            vol = build_chunk({"dtype": case["dtype"], "channels":
+                               case["channels"], "size": p["size"], "block":
+                               p["block"], "pal": case["pal"], "values":
+                               case["values"], "share": True, "seed":
+                               case["seed"] + i})
+            ds.write_scale(pio, sc, vol)
+            for cc in ds.chunk_coords_list(sc["size"], sc["chunk_sizes"][0]):
+                x0, x1, y0, y1, z0, z1 = cc
+                want = vol[:, z0:z1, y0:y1, x0:x1]
+                buf = bytes(pio.accessor.fetch_chunk(sc["key"], cc))
+                try:
+                    ref = cseg_spec.decode(buf, want.shape, p["block"],
+                                           want.dtype)
+                except cseg_spec.SpecError as exc:
+                    ctx.fail("chunk %s of scale %d (block size %s in the "
+                             "info) is not decodable from the format "
+                             "description: %s (scales %s)" % (
+                                 cc, i, p["block"], exc, case["scales"]))
+                if not np.array_equal(ref, want):
+                    ctx.fail("chunk %s of scale %d decodes to other labels "
+                             "with the block size %s of its scale (scales %s)"
+                             % (cc, i, p["block"], case["scales"]))
+        return len({tuple(p["block"]) for p in case["scales"]}) >= 2
+    finally:
+        ctx.rmtree(d)
+
+
+def run_dataset(ctx, n):
+    def check(ctx, case):
+        nt = check_dataset(ctx, case)
+        ctx.record(case, nt, ["scales%d" % len(case["scales"]),
+                              case["dtype"]])
+    ctx.run_hypothesis(dataset_cases(), check, n)
+
+
 def replay(ctx, case):
+    if "scales" in case:
+        return check_dataset(ctx, case)
     selftest_reference()
     if "pal" in case:
         check_case(ctx, case)
@@ -341,6 +410,7 @@ SUBS = [
     Sub("encode", run, replay, quick=2400, thorough=100000),
     Sub("bits16", run_family(16), replay, quick=80, thorough=3000, shards=4),
     Sub("bits32", run_family(32), replay, quick=16, thorough=300, shards=4),
+    Sub("via_dataset", run_dataset, replay, quick=150, thorough=6000),
     Sub("many_tables", run_many_tables, replay, quick=4, thorough=24,
         shards=2),  # ~65k (quick) / ~131k (thorough) lookup tables per chunk
 ]
